@@ -8,7 +8,7 @@ use std::time::Duration;
 const SIG: i32 = libc::SIGUSR1;
 
 #[derive(Clone, Copy, Debug, PartialEq)]
-enum Kind {
+pub(crate) enum Kind {
     Pipe,
     Stream,
     Dgram,
@@ -193,6 +193,86 @@ fn iterator_burst(n: usize, e: &mut Emit) {
     }
     let got2: Vec<i32> = s.wait().collect();
     e.line(&format!("wait_after_drain={:?}", got2));
+    e.line("done");
+}
+
+/// Two registrations share one open file description through `dup`ed write ends (what the module
+/// documentation recommends for several signals on one pipe). One of them goes away (removed, or
+/// refused), the pipe is filled completely, then the remaining one's signal is delivered: the
+/// delivery returns, makes one wake attempt, and after draining one more delivery gives one byte.
+pub(crate) fn shared_cell(kind: Kind, variant: usize, e: &mut Emit) {
+    counters::install();
+    let (r, w) = make(kind);
+    let w2 = unsafe { libc::dup(w) };
+    let other = libc::SIGUSR2;
+    let (live_sig, live_id);
+    match variant {
+        0 => {
+            // both registered, the first one removed
+            let a = signal_hook::low_level::pipe::register_raw(SIG, w).unwrap();
+            let b = signal_hook::low_level::pipe::register_raw(other, w2).unwrap();
+            signal_hook::low_level::unregister(a);
+            live_sig = other;
+            live_id = b;
+        }
+        1 => {
+            // both registered, the second one removed
+            let a = signal_hook::low_level::pipe::register_raw(SIG, w).unwrap();
+            let b = signal_hook::low_level::pipe::register_raw(other, w2).unwrap();
+            signal_hook::low_level::unregister(b);
+            live_sig = SIG;
+            live_id = a;
+        }
+        2 => {
+            // one registered, a registration of the dup refused by the OS
+            let a = signal_hook::low_level::pipe::register_raw(SIG, w).unwrap();
+            let p = signal_hook::low_level::pipe::register_raw(100, w2);
+            e.line(&format!("refused={}", p.is_err() as u8));
+            live_sig = SIG;
+            live_id = a;
+        }
+        3 => {
+            // one registered, a registration of the dup refused by panic (forbidden signal)
+            let a = signal_hook::low_level::pipe::register_raw(SIG, w).unwrap();
+            let p = std::panic::catch_unwind(|| signal_hook::low_level::pipe::register_raw(libc::SIGKILL, w2));
+            e.line(&format!("refused={}", p.is_err() as u8));
+            live_sig = SIG;
+            live_id = a;
+        }
+        _ => {
+            // both registered for the same signal, the first removed: one action left
+            let a = signal_hook::low_level::pipe::register_raw(SIG, w).unwrap();
+            let b = signal_hook::low_level::pipe::register_raw(SIG, w2).unwrap();
+            signal_hook::low_level::unregister(a);
+            live_sig = SIG;
+            live_id = b;
+        }
+    }
+    // fill() switches the (shared) description to non-blocking and back to blocking; what the library
+    // had set on it at registration is put back afterwards - the harness must not be what clears it
+    let live_w = if variant == 0 || variant >= 4 { w2 } else { w };
+    let fl = unsafe { libc::fcntl(live_w, libc::F_GETFL, 0) };
+    let filled = fill(kind, live_w, r, 0);
+    unsafe {
+        libc::fcntl(live_w, libc::F_SETFL, fl);
+    }
+    e.line(&format!("filled={} flags_nonblocking={}", filled, (fl & libc::O_NONBLOCK != 0) as u8));
+    let w0 = counters::wakes();
+    for k in 0..2 {
+        unsafe {
+            libc::raise(live_sig);
+        }
+        e.line(&format!("delivered {}", k));
+    }
+    e.line(&format!("wakes={}", counters::wakes() - w0));
+    let _ = drain(kind, r);
+    unsafe {
+        libc::raise(live_sig);
+    }
+    let (x2, _, _) = drain(kind, r);
+    e.line(&format!("second x={}", x2));
+    signal_hook::low_level::unregister(live_id);
+    e.line(&format!("closed={}", (!fd_open(w) && !fd_open(w2)) as u8));
     e.line("done");
 }
 
@@ -497,6 +577,7 @@ pub fn run(tier: Tier) -> BResult {
         Own(Kind, usize),
         IterBurst(usize),
         WithPipe(usize),
+        Shared(Kind, usize),
     }
     let mut cells: Vec<Cell> = Vec::new();
     for &k in &kinds {
@@ -509,6 +590,9 @@ pub fn run(tier: Tier) -> BResult {
         }
         for v in 0..5 {
             cells.push(Cell::Own(k, v));
+        }
+        for v in 0..5 {
+            cells.push(Cell::Shared(k, v));
         }
     }
     for n in [1usize, 300, 3000] {
@@ -523,6 +607,7 @@ pub fn run(tier: Tier) -> BResult {
         Cell::Own(k, v) => own_cell(*k, *v, e),
         Cell::IterBurst(n) => iterator_burst(*n, e),
         Cell::WithPipe(v) => with_pipe_cell(*v, e),
+        Cell::Shared(k, v) => shared_cell(*k, *v, e),
     });
     let mut violations = Vec::new();
     let mut samples = Vec::new();
@@ -598,6 +683,26 @@ pub fn run(tier: Tier) -> BResult {
                     bad = Some(format!("close() was called {} times on the write end", p.find("close_calls=").unwrap_or("")));
                 } else if p.find("later_wakes=") != Some("0") {
                     bad = Some(format!("3 later deliveries of the accepted signal made {} wake attempts (its action was not removed: the descriptor is written to after it was given up)", p.find("later_wakes=").unwrap_or("")));
+                }
+            }
+            Cell::Shared(k, v) => {
+                transitions += 7;
+                let names = ["two signals on dup'ed write ends, the first registration removed", "two signals on dup'ed write ends, the second registration removed", "a registration of the dup refused by the OS", "a registration of the dup refused by panic", "one signal twice on dup'ed write ends, the first registration removed"];
+                case = json!({"kind": format!("{:?}", k), "history": format!("{}; then the write end is filled completely and the remaining registration's signal is delivered", names[*v])});
+                *classes.entry(format!("shared description:{}", names[*v])).or_insert(0) += 1;
+                distinct.insert(format!("shared{:?}{}", k, v));
+                if p.fate == Fate::TimedOut {
+                    bad = Some(format!("a delivery did not return (blocked in the wake write into the full write end) - after {} deliveries", p.all("delivered ").len()));
+                } else if p.fate != Fate::Exited(0) || !p.has("done") {
+                    bad = Some(format!("child {}: {:?}", p.fate.describe(), p.lines.last()));
+                } else if (*v == 2 || *v == 3) && p.find("refused=") != Some("1") {
+                    bad = Some("the registration that must be refused was accepted".into());
+                } else if p.find("wakes=") != Some("2") {
+                    bad = Some(format!("2 deliveries made {} wake attempts with one registration left", p.find("wakes=").unwrap_or("")));
+                } else if p.find("second ") != Some("x=1") {
+                    bad = Some(format!("after draining, one more delivery produced {} (must be exactly one byte)", p.find("second ").unwrap_or("")));
+                } else if p.find("closed=") != Some("1") {
+                    bad = Some("a descriptor handed over is still open after every registration is gone".into());
                 }
             }
             Cell::Own(k, v) => {
@@ -728,7 +833,7 @@ pub fn run(tier: Tier) -> BResult {
         violations,
         exhaustive: a_caps.is_empty(),
         caps: a_caps,
-        rule: format!("schedules: the action of a registered pipe is removed and an iterator instance and its last handle are dropped (both orders) while the signal is delivered from another thread and nested at every operation boundary of the teardown - every wake attempt must hit an open descriptor, and none happens once the owners are gone; a completely full pipe in blocking mode is handed to register_raw while the signal is delivered from another thread and nested at every boundary of the registration - no wake attempt may meet a full pipe that is still blocking; two threads add the same signal through handle clones - a delivery still makes exactly one wake attempt and none once everything is gone; every choice vector within the deviation bound on the real code; grid: complete grid descriptor kind {{pipe, unix stream, unix datagram}} x fill level {{empty, nearly full, completely full}} x burst {:?} x entry {{register_raw, register}} + 5 ownership histories per kind (register/deliver/unregister; rejected: forbidden, OS-refused, fd -1, closed number; then a sentinel on the freed number while the library keeps being used) + 4 histories of a write end handed to SignalDelivery::with_pipe (list refused by the OS / by panic after an accepted signal; accepted list then drop); each cell in a forked child with a watchdog", bursts),
+        rule: format!("schedules: the action of a registered pipe is removed and an iterator instance and its last handle are dropped (both orders) while the signal is delivered from another thread and nested at every operation boundary of the teardown - every wake attempt must hit an open descriptor, and none happens once the owners are gone; a completely full pipe in blocking mode is handed to register_raw while the signal is delivered from another thread and nested at every boundary of the registration - no wake attempt may meet a full pipe that is still blocking; two threads add the same signal through handle clones - a delivery still makes exactly one wake attempt and none once everything is gone; every choice vector within the deviation bound on the real code; grid: complete grid descriptor kind {{pipe, unix stream, unix datagram}} x fill level {{empty, nearly full, completely full}} x burst {:?} x entry {{register_raw, register}} + 5 ownership histories per kind (register/deliver/unregister; rejected: forbidden, OS-refused, fd -1, closed number; then a sentinel on the freed number while the library keeps being used) + 5 histories per kind of two registrations sharing one open file description through dup'ed write ends (one removed or refused, then a completely full write end and deliveries for the one that is left) + 4 histories of a write end handed to SignalDelivery::with_pipe (list refused by the OS / by panic after an accepted signal; accepted list then drop); each cell in a forked child with a watchdog", bursts),
         assumptions: vec!["wake attempts are counted through the cfg(sighook_verif) scheduling point in pipe::wake".into(), "pipe capacity reduced to one page with F_SETPIPE_SZ".into()],
     }
 }
